@@ -2,7 +2,12 @@
 against the real command on generated project trees.
 
 One *case* is a JSON-able project: {"flags": "<submodules><meson>", "tree": [[name, NODE]...]} with
-NODE = ["d", [[name, NODE]...]] | ["l", target] | ["f", BODY] and BODY one of
+NODE = ["d", [[name, NODE]...]] | ["l", target] | ["l", target, "abs"] | ["f", BODY]
+(`["l", target]`: a symbolic link whose text is `target`; `["l", target, "abs"]`: the text is the absolute path of the
+root-relative `target`), optionally "outside": [[name, NODE]...] — a directory `rv-outside` *next to* the project root (then the
+case has a "root") for the targets of links that leave the project — and "liclinks": {"linked": [NAME...], "dangling":
+[NAME...]} — the generator's record of the names below LICENSES/ (relative to it) that are reached through a symbolic link
+(to the file itself, or to a directory on the way) resp. are dangling links; and BODY one of
   {"t": "text", "style": s, "cop": [notice...], "lic": [EXPR...], "pad": n, "snip": bool, "decoy": bool, "bad": bool, "crlf": bool}
   {"t": "bin", "tags": bool} | {"t": "empty"} | {"t": "raw", "s": text}
   {"t": "toml", "tables": [TABLE...], "broken": bool} | {"t": "dep5", "paras": [PARA...]}
@@ -139,17 +144,76 @@ def node_at(tree, path):
     return None
 
 
-def materialise(root, tree):
+OUTSIDE = "rv-outside"       # the directory next to the project root that holds case["outside"]
+
+
+def materialise(root, tree, top=None):
+    top = top or root
     for name, node in tree:
         p = os.path.join(root, name)
         if node[0] == "f":
             with open(p, "wb") as fp:
                 fp.write(body_bytes(node[1]))
         elif node[0] == "l":
-            os.symlink(node[1], p)
+            os.symlink(os.path.normpath(os.path.join(top, node[1])) if node[2:] == ["abs"] else node[1], p)
         else:
             os.makedirs(p, exist_ok=True)
-            materialise(p, node[1])
+            materialise(p, node[1], top)
+
+
+def materialise_case(root, case):
+    materialise(root, case["tree"])
+    if case.get("outside"):
+        assert case.get("root"), "targets outside the project need a project directory below the scratch directory"
+        out = os.path.join(os.path.dirname(root), OUTSIDE)
+        os.makedirs(out)
+        materialise(out, case["outside"], root)
+
+
+class LinkView:
+    """What the symbolic links of a case resolve to, computed on the case itself the way the kernel resolves a path (component
+    by component, `..` of the *physical* directory, relative link texts read from the directory that holds the link, links to
+    links followed, a bounded number of hops): used to serialise the tree for the model, never by an oracle."""
+
+    def __init__(self, case):
+        self.top = [["p", ["d", case["tree"]]], [OUTSIDE, ["d", case.get("outside", [])]]]
+
+    def physical(self, parts):
+        node = ["d", self.top]
+        for part in parts:
+            node = [n for nm, n in node[1] if nm == part][0]
+        return node
+
+    def resolve(self, parts, budget=40):
+        """-> (node, physical components) of what `stat` finds at the path `parts` (from the virtual top), or None"""
+        todo, cur, node = list(parts), [], ["d", self.top]
+        while todo:
+            part = todo.pop(0)
+            if node[0] != "d":
+                return None
+            if part in ("", "."):
+                continue
+            if part == "..":
+                cur = cur[:-1]
+                node = self.physical(cur)
+                continue
+            hit = [n for nm, n in node[1] if nm == part]
+            if not hit:
+                return None
+            if hit[0][0] == "l":
+                budget -= 1
+                if budget < 0:
+                    return None
+                text = hit[0][1].split("/")
+                if hit[0][2:] == ["abs"]:
+                    todo, cur, node = ["p"] + text + todo, [], ["d", self.top]
+                elif hit[0][1].startswith("/"):
+                    return None        # an absolute text of the generator's own making: points nowhere
+                else:
+                    todo = text + todo
+                continue
+            cur, node = cur + [part], hit[0]
+        return node, cur
 
 
 def c03_tree(tree, rename_tomls=False):
@@ -220,6 +284,10 @@ def truth(case, every_file=False):
         for p, node in walk_nodes(ln[1]):
             if node[0] == "f" and not any(part.startswith(".") for part in p.split("/")):
                 lic.append(p)
+    # ... and what the generator recorded as reached through symbolic links: a link that resolves to a regular file is a
+    # licence text called what the link is called, a link that resolves to a directory is a sub-directory (a dangling link
+    # is nothing); the names are the generator's own record, no link is followed here
+    lic += [n for n in case.get("liclinks", {}).get("linked", []) if not any(part.startswith(".") for part in n.split("/"))]
     if not rc.dup_free({"lic": lic}):
         return {"status": "duplicate"}       # (the tool stops: C16; decided on the names the tool sees)
     if every_file:
@@ -338,7 +406,7 @@ def run_impl(case):
     flags = case["flags"]
     opts = (["--include-submodules"] if flags[0] == "1" else []) + (["--include-meson-subprojects"] if flags[1] == "1" else [])
     with places.project_dir(case, "rv-e2e-") as root:
-        materialise(root, case["tree"])
+        materialise_case(root, case)
         saved = os.environ.get("_SUPPRESS_DEP5_WARNING")
         os.environ["_SUPPRESS_DEP5_WARNING"] = "1"
         try:
@@ -403,16 +471,25 @@ def enc_bytes(bs):
     return ",".join("%x" % b for b in bs)
 
 
-def tree_tokens(tree):
+def tree_tokens(tree, view=None, here=("p",), depth=0):
+    """`view`: the LinkView of the case (None: every link is serialised as a dangling one); `here`: where `tree` physically lies"""
     toks = []
     for name, node in tree:
         if node[0] == "f":
             toks.append("F:%s:%s" % (enc(name), enc_bytes(body_bytes(node[1]))))
         elif node[0] == "l":
-            toks.append("L:%s" % enc(name))
+            hit = view.resolve(list(here) + [name]) if view is not None and depth < 6 else None
+            if hit is None:
+                toks.append("L:%s" % enc(name))
+            elif hit[0][0] == "f":
+                toks.append("LF:%s:%s" % (enc(name), enc_bytes(body_bytes(hit[0][1]))))
+            else:
+                toks.append("LD:%s" % enc(name))
+                toks.extend(tree_tokens(hit[0][1], view, tuple(hit[1]), depth + 1))
+                toks.append("E")
         else:
             toks.append("D:%s" % enc(name))
-            toks.extend(tree_tokens(node[1]))
+            toks.extend(tree_tokens(node[1], view, tuple(here) + (name,), depth))
             toks.append("E")
     return toks
 
@@ -501,7 +578,7 @@ def model_fields(case, rows):
             if ps is not None:
                 dep5 = "=" + " ".join("%s/%s/%s" % (enc_list(g), enc(c), enc(l)) for g, c, l in ps)
     table = " ".join("%s/%s/%s/%s" % (enc(t), "1" if ok else "0", enc_list(ks), enc(r)) for t, ok, ks, r in rows)
-    return ["e2e", case["flags"], " ".join(tree_tokens(tree)), "~", "~", enc_list(binaries), table, dep5] + tomls
+    return ["e2e", case["flags"], " ".join(tree_tokens(tree, LinkView(case))), "~", "~", enc_list(binaries), table, dep5] + tomls
 
 
 def run_model(cases):
@@ -576,6 +653,185 @@ def add_path(tree, path, node):
     return True
 
 
+def pop_path(tree, path):
+    """remove the entry at `path` (through real directories) and return its node"""
+    parts = path.split("/")
+    cur = tree
+    for part in parts[:-1]:
+        cur = [n for nm, n in cur if nm == part][0][1]
+    for i, (nm, n) in enumerate(cur):
+        if nm == parts[-1]:
+            del cur[i]
+            return n
+    raise KeyError(path)
+
+
+def _put(case, where, node):
+    """`where`: root-relative; '../rv-outside/...' lies next to the project"""
+    if where.startswith("../" + OUTSIDE + "/"):
+        return add_path(case.setdefault("outside", []), where[len(OUTSIDE) + 4:], node)
+    return add_path(case["tree"], where, node)
+
+
+def _link(at, to, absolute=False):
+    """the node of a symbolic link that lies at the root-relative place `at` and points at the root-relative place `to`"""
+    if absolute or (at.startswith("../") and not to.startswith("../")):
+        return ["l", to, "abs"]        # (a link that lies outside and points into the project names the root: always absolute)
+    return ["l", os.path.relpath(os.path.normpath("/R/p/" + to), os.path.dirname("/R/p/" + at))]
+
+
+DIR_TARGETS = ["nested", "nested", "dotreuse", "dotreuse", "outside", "outside", "hidden", "plain"]
+FILE_TARGETS = ["alias", "project", "project", "covered", "dotreuse", "hidden", "outside", "outside", "chain"]
+NESTED = ["vendor/LICENSES", "third_party/x/LICENSES", "src/ext/LICENSES"]
+EXTRA_IDS = ["Zlib", "ISC", "Unlicense", "LicenseRef-linked", "nonsense", "GPL-1.0"]
+
+
+def add_lic_links(rng, case, used=()):
+    """Some entries below LICENSES/ of a finished project become symbolic links.  A sub-directory (an existing one, a new one
+    into which top-level texts move, a hidden one, now and then LICENSES itself) becomes a link to a directory that lies
+    elsewhere (a LICENSES directory deeper in the project, below .reuse/, a hidden pool below LICENSES/, an ordinary directory
+    of the project, a directory outside the project); one to three texts — inside linked directories too — become links to
+    regular files (another text, an excluded file of the project, a covered file, below .reuse/, a hidden store, outside the
+    project, a link to a link), relative or absolute; dangling links and links with hidden names that are called like licence
+    texts nobody provides.  The names of the texts do not change; case["liclinks"] records which are reached through links."""
+    tree = case["tree"]
+    ln = node_at(tree, "LICENSES")
+    if ln is None or ln[0] != "d":
+        return case
+    texts = [p for p, node in walk_nodes(ln[1]) if node[0] == "f"]
+    if not texts:
+        return case
+    linked, dangling = [], []
+    count = [0]
+
+    def fresh():
+        count[0] += 1
+        return count[0]
+
+    lic_at = "LICENSES"                   # where the entries of LICENSES/ physically lie
+    moved = {}                            # logical directory below LICENSES/ ('' = LICENSES itself) -> where it physically lies
+
+    def place_of(name):
+        for d, t in moved.items():
+            if d == "":
+                return t + "/" + name
+            if name == d or name.startswith(d + "/"):
+                return t + name[len(d):]
+        return "LICENSES/" + name
+
+    def dir_target(kind, k, below_lic=True):
+        if kind == "nested":
+            return NESTED[k % 3]
+        if kind == "dotreuse":
+            return ".reuse/texts-%d" % k
+        if kind == "hidden" and below_lic:
+            return "LICENSES/.pool/d%d" % k
+        if kind == "plain":
+            return "assets/texts-%d" % k
+        return "../%s/dir-%d" % (OUTSIDE, k)
+
+    # a directory on the way is a link
+    r = rng.random()
+    if r < 0.5:
+        d = None
+        subs = sorted({n.split("/")[0] for n in texts if "/" in n})
+        top = [n for n in texts if "/" not in n]
+        if r < 0.04:
+            d = ""
+        elif subs and r < 0.25:
+            d = rng.choice(subs)
+        elif top:
+            d = rng.choice(["shared", "third-party", "deep/er", "x y", "shared", ".dotted"])
+            if any(n == d.split("/")[0] or n.startswith(d.split("/")[0] + "/") for n in texts):
+                d = None
+            else:
+                # top-level texts move into the new directory (a hidden one takes one text at most: what is in it is not provided)
+                for n in rng.sample(top, 1 if d.startswith(".") else rng.randint(1, min(3, len(top)))):
+                    add_path(tree, "LICENSES/%s/%s" % (d, n), pop_path(tree, "LICENSES/" + n))
+                    texts[texts.index(n)] = d + "/" + n
+        if d is not None:
+            k = fresh()
+            kind = rng.choice(DIR_TARGETS if d else ["nested", "dotreuse", "outside"])
+            if kind == "plain" and any(c03.workaround_name(n.rsplit("/", 1)[-1]) for n in texts):
+                kind = "dotreuse"       # (a text called CAL-1.0.txt in a covered directory would meet C03's known finding about that name)
+            t = dir_target(kind, k)
+            at = "LICENSES/" + d if d else "LICENSES"
+            if _put(case, t, pop_path(tree, at)):
+                add_path(tree, at, _link(at, t, rng.random() < 0.3))
+                moved[d] = t
+                if d == "":
+                    lic_at = t
+                linked += [n for n in texts if d == "" or n.startswith(d + "/")]
+            else:
+                raise AssertionError("directory target taken: %s" % t)
+
+    # texts are links to regular files
+    plain = [n for n in texts if not n.endswith(".license")]
+    chosen = rng.sample(plain, min(len(plain), rng.choice([0, 1, 1, 2, 3]) if moved else rng.choice([1, 1, 2, 3])))
+    for n in chosen:
+        k = fresh()
+        kind = rng.choice(FILE_TARGETS)
+        at = place_of(n)
+        holder = case.get("outside", []) if at.startswith("../") else tree
+        inner = at[len(OUTSIDE) + 4:] if at.startswith("../") else at
+        node = pop_path(holder, inner)
+        hop = None
+        if kind == "alias":
+            others = [m for m in plain if m not in chosen]
+            to = place_of(rng.choice(others)) if others else None
+        elif kind == "covered":
+            cands = [p for p, nd in walk_nodes(tree) if nd[0] == "f" and not p.endswith(".license") and not p.startswith("LICENSES/")
+                     and nd[1].get("t") == "text"]
+            to = rng.choice(cands) if cands else None
+        else:
+            to = {"project": ["COPYING-%d", "legal/LICENSE-%d.txt", "LICENSE.%d.md"][k % 3] % k,
+                  "dotreuse": ".reuse/store/text-%d" % k,
+                  "hidden": lic_at + "/.store/text-%d" % k,
+                  "outside": "../%s/text-%d" % (OUTSIDE, k),
+                  "chain": "docs/COPYING-%d.txt" % k}[kind]
+            if not _put(case, to, node):
+                to = None
+            elif kind == "chain":
+                hop = lic_at + "/.store/hop-%d" % k
+                _put(case, hop, _link(hop, to))
+        if to is None:
+            _put(case, at, node)           # nothing to point at: the text stays a regular file
+            continue
+        _put(case, at, _link(at, hop or to, rng.random() < 0.25))
+        if n not in linked:
+            linked.append(n)
+
+    # links that provide nothing: dangling ones, hidden ones
+    provided = {rc.carried(n.rsplit("/", 1)[-1])[0] for n in plain}
+    spare = [x for x in sorted({rc.base(u) for u in used}) + EXTRA_IDS if x not in provided and "/" not in x]
+    rng.shuffle(spare)
+    if spare and rng.random() < 0.4:
+        x = spare.pop()
+        dirs = sorted({n.rsplit("/", 1)[0] + "/" for n in texts if "/" in n and not n.startswith(".")})
+        n = rng.choice(["", ""] + dirs) + x + rng.choice([".txt", ".txt", ""])
+        if _put(case, place_of(n), ["l", rng.choice(["no/such/file-%d" % fresh(), "../gone.txt", x + ".missing"])]):
+            dangling.append(n)
+    if spare and rng.random() < 0.2:
+        x = spare.pop()
+        k = fresh()
+        if rng.random() < 0.5:
+            # a hidden link to a text
+            to = ".reuse/store/text-%d" % k
+            at = place_of("." + x + ".txt")
+            if _put(case, to, ["f", {"t": "raw", "s": "licence text behind a hidden link\n"}]):
+                _put(case, at, _link(at, to))
+        else:
+            # a hidden link to a directory that holds a text
+            to = rng.choice([".reuse/more-%d" % k, "tools/LICENSES"])      # (a place no other link leads to)
+            at = place_of(".more")
+            if _put(case, to + "/" + x + ".txt", ["f", {"t": "raw", "s": "licence text below a hidden link\n"}]):
+                _put(case, at, _link(at, to))
+    if case.get("outside") and not case.get("root"):
+        case["root"] = rng.choice(places.ROOT_NAMES[:8])
+    case["liclinks"] = {"linked": linked, "dangling": dangling}
+    return case
+
+
 def rand_notices(rng, n):
     return [rng.choice(NOTICES) % (rng.randint(1990, 2024), rng.randint(0, 9)) for _ in range(n)]
 
@@ -610,7 +866,8 @@ def rand_text_body(rng, pool, style, full=None):
     return b
 
 
-def gen_case(rng):
+def gen_case(rng, links=False):
+    """links: one project in three reaches some of its licence texts through symbolic links (add_lic_links)"""
     cl = rc.id_classes()
     t = rc.table()
     plain = [x for x in cl["current"] if not ("." in x and x[:x.rfind(".")] in t)]
@@ -788,7 +1045,64 @@ def gen_case(rng):
                 add_path(tree, "LICENSES/" + dup, ["f", {"t": "raw", "s": "again\n"}])
         elif rng.random() < 0.5:
             add_path(tree, "LICENSES", ["f", {"t": "raw", "s": "a file, not a directory\n"}])
+        if links and rng.random() < 0.35:
+            add_lic_links(rng, case, used)
     return case
+
+
+def link_fixed_cases():
+    """small hand-made projects, one per way a licence text can be reached (or not) through a symbolic link below LICENSES/:
+    `a.py` uses MIT, `b.c` uses 0BSD; each case names its linked / dangling entries itself"""
+    def f(text):
+        return ["f", {"t": "raw", "s": text}]
+
+    def src(style, ident):
+        return ["f", {"t": "text", "style": style, "cop": ["SPDX-FileCopyrightText: 2020 Jane Doe"], "lic": [["K", ident]]}]
+
+    def mk(lic, linked, dangling=(), extra=(), outside=None, lic_node=None):
+        tree = [["a.py", src("py", "MIT")], ["b.c", src("c", "0BSD")]]
+        tree.append(["LICENSES", lic_node if lic_node is not None else ["d", lic]])
+        tree += [list(e) for e in extra]
+        case = {"flags": "00", "tree": tree, "liclinks": {"linked": list(linked), "dangling": list(dangling)}}
+        if outside is not None:
+            case["outside"] = outside
+            case["root"] = "my project"
+        return case
+
+    t = "licence text\n"
+    bsd = ["0BSD.txt", f(t)]
+    return [
+        # links to regular files: relative into a hidden store, absolute to an excluded file of the project, outside the
+        # project, a link to a link, another text of LICENSES/, a covered file
+        mk([bsd, ["MIT.txt", ["l", ".store/t"]], [".store", ["d", [["t", f(t)]]]]], ["MIT.txt"]),
+        mk([bsd, ["MIT.txt", ["l", "COPYING-1", "abs"]]], ["MIT.txt"], extra=[("COPYING-1", f(t))]),
+        mk([bsd, ["MIT.txt", ["l", "../../rv-outside/text-1"]]], ["MIT.txt"], outside=[["text-1", f(t)]]),
+        mk([bsd, ["MIT.txt", ["l", "../rv-outside/text-1", "abs"]]], ["MIT.txt"], outside=[["text-1", f(t)]]),
+        mk([bsd, ["MIT.txt", ["l", ".store/hop"]], [".store", ["d", [["hop", ["l", "../../docs/COPYING.txt"]]]]]], ["MIT.txt"],
+           extra=[("docs", ["d", [["COPYING.txt", f(t)]]])]),
+        mk([bsd, ["MIT.txt", ["l", "0BSD.txt"]]], ["MIT.txt"]),
+        mk([bsd, ["MIT.txt", ["l", "../a.py"]]], ["MIT.txt"]),
+        mk([bsd, ["sub", ["d", [["MIT", ["l", "../0BSD.txt"]]]]]], ["sub/MIT"]),
+        # links to directories: inside the project, outside with a link inside it, LICENSES itself, a link inside a linked directory
+        mk([bsd, ["shared", ["l", "../vendor/LICENSES"]]], ["shared/MIT.txt", "shared/MIT.txt.license", "shared/.hid/Zlib.txt"],
+           extra=[("vendor", ["d", [["LICENSES", ["d", [["MIT.txt", f(t)], ["MIT.txt.license", f("x\n")], [".hid", ["d", [["Zlib.txt", f(t)]]]]]]]]])]),
+        mk([bsd, ["deep", ["d", [["er", ["l", "../rv-outside/dir-1", "abs"]]]]]], ["deep/er/MIT.txt", "deep/er/sub/Zlib.txt"],
+           outside=[["dir-1", ["d", [["MIT.txt", ["l", "COPYING-1", "abs"]], ["sub", ["d", [["Zlib.txt", f(t)]]]]]]]],
+           extra=[("COPYING-1", f(t))]),
+        mk(None, ["0BSD.txt", "MIT.txt", "sub/Zlib.txt"], lic_node=["l", ".reuse/texts"],
+           extra=[(".reuse", ["d", [["texts", ["d", [["0BSD.txt", f(t)], ["MIT.txt", f(t)], ["sub", ["d", [["Zlib.txt", f(t)]]]]]]]]])]),
+        mk(None, ["0BSD.txt", "MIT.txt"], lic_node=["l", "../rv-outside/lics", "abs"], outside=[["lics", ["d", [["0BSD.txt", f(t)], ["MIT.txt", f(t)]]]]]),
+        mk([bsd, ["one", ["l", "../.reuse/A"]]], ["one/two/MIT.txt"],
+           extra=[(".reuse", ["d", [["A", ["d", [["two", ["l", "../B"]]]]], ["B", ["d", [["MIT.txt", f(t)]]]]]])]),
+        # nothing is provided: dangling links, hidden links, LICENSES a link to a regular file / a dangling link
+        mk([bsd, ["MIT.txt", ["l", "no/such/file"]]], [], ["MIT.txt"]),
+        mk([bsd, ["MIT.txt", f(t)], ["Zlib.txt", ["l", "../gone"]], ["sub", ["d", [["ISC.txt", ["l", "ISC.missing"]]]]]], [], ["Zlib.txt", "sub/ISC.txt"]),
+        mk([bsd, [".MIT.txt", ["l", "0BSD.txt"]]], [".MIT.txt"]),
+        mk([bsd, [".more", ["l", "../.reuse/texts"]]], [".more/MIT.txt"], extra=[(".reuse", ["d", [["texts", ["d", [["MIT.txt", f(t)]]]]]])]),
+        mk([bsd, ["MIT.txt", f(t)], ["gone", ["l", "../nowhere"]]], [], ["gone"]),
+        mk(None, [], lic_node=["l", "a.py"]),
+        mk(None, [], lic_node=["l", "nowhere"]),
+    ]
 
 
 # ----------------------------------------------------------------------------
@@ -806,11 +1120,18 @@ class E2EModelStream(Stream):
             "precedences, string / list / empty-string copyright values, empty / broken / symlinked / excluded REUSE.toml; .reuse/dep5 with "
             "1-3 paragraphs; one project in five uses an ill-formed LicenseRef- look-alike (underscore, non-ASCII, colon, empty tail) like any "
             "other identifier, its text provided three times out of four; LICENSES/ with sub-directories, hidden files and directories, "
-            ".license companions and 7 kinds of disturbance) "
+            ".license companions and 7 kinds of disturbance; in one project in three some LICENSES/ entries are symbolic links: one to three "
+            "texts are links to regular files (another text, an excluded file of the project, a covered file, below .reuse/, a hidden store "
+            "below LICENSES/, a file outside the project, a link to a link; relative or absolute texts), a sub-directory — existing, new, hidden, "
+            "now and then LICENSES itself — is a link to a directory (a LICENSES/ deeper in the project, below .reuse/, a hidden pool, an "
+            "ordinary covered directory, outside the project) with links inside it, dangling links and hidden links called like texts nobody "
+            "provides; preceded by 20 hand-made projects, one per way of reaching or not reaching a text through a link) "
             "written to disk for the real `reuse lint --json` and serialised for the composed Lean model (driver op `e2e`, two rounds: "
-            "license-expression, tomlkit, python-debian and binaryornot answer as oracle tables); compared: status, file list, per-file "
+            "license-expression, tomlkit, python-debian and binaryornot answer as oracle tables; a symbolic link is serialised with what it "
+            "resolves to — nothing, the bytes of a regular file, the entries of a directory — as computed on the case by LinkView); compared: status, file list, per-file "
             "copyright lines / expressions with their source, the eight collections, used licences, verdict and exit status; oracle = "
-            "generator ground truth through c03.spec_covered, c05.denotes, c04.spec_items, reports_common.expected_of/clauses_of; "
+            "generator ground truth through c03.spec_covered, c05.denotes, c04.spec_items, reports_common.expected_of/clauses_of over the regular "
+            "files below LICENSES/ plus the names the generator recorded as reached through links (no link is followed by the oracle); "
             "non-trivial = distinct reports")
 
     def __init__(self):
@@ -820,7 +1141,7 @@ class E2EModelStream(Stream):
 
     def cases(self, tier, rng):
         n = {"quick": 400, "thorough": 4000}[tier]
-        out = [gen_case(rng) for _ in range(n)]
+        out = link_fixed_cases() + [gen_case(rng, links=True) for _ in range(n)]
         self._pending = list(out)
         return out
 
@@ -941,5 +1262,13 @@ class E2EModelStream(Stream):
                 data = body_bytes(node[1])
                 files[p] = data.decode("utf-8", "replace") if len(data) < 600 else "<%d bytes> … %s" % (len(data), data[-300:].decode("utf-8", "replace"))
             elif node[0] == "l":
-                files[p] = "-> " + node[1]
-        return {"flags": case["flags"], "files": files}
+                files[p] = "-> " + node[1] + (" (absolute, from the root)" if node[2:] == ["abs"] else "")
+        out = {"flags": case["flags"], "files": files}
+        if case.get("root"):
+            out["root"] = case["root"]
+        if case.get("outside"):
+            out["outside (../%s)" % OUTSIDE] = {p: ("-> " + node[1] + (" (absolute, from the root)" if node[2:] == ["abs"] else "")) if node[0] == "l" else "…"
+                                                for p, node in walk_nodes(case["outside"]) if node[0] != "d"}
+        if case.get("liclinks"):
+            out["liclinks"] = case["liclinks"]
+        return out
